@@ -46,10 +46,12 @@ class Node(object):
 
 
 class Heap(object):
-    def __init__(self, n):
+    def __init__(self, n, keys=None):
         if n is None:          # before __init__ ran
             self.end, self.map, self.fresh = None, None, 0
             return
+        if keys is not None:
+            n = len(keys)
         self.end = Node('END', [None, None, None])
         self.end.slots[1] = self.end
         self.end.slots[2] = self.end
@@ -57,8 +59,8 @@ class Heap(object):
         self.fresh = 0
         prev = self.end
         for i in range(n):
-            k = 'k%d' % i
-            nd = Node('N' + k, [k, prev, self.end])
+            k = 'k%d' % i if keys is None else keys[i]
+            nd = Node('N%s' % (k,), [k, prev, self.end])
             prev.slots[2] = nd
             self.end.slots[1] = nd
             self.map[k] = nd
@@ -90,7 +92,7 @@ class Heap(object):
         if b is None:
             return 'following the prev pointers from the sentinel does not come back to it'
         fk = [n.slots[0] for n in f]
-        if sorted(fk) != sorted(self.map) or len(set(fk)) != len(fk):
+        if sorted(map(repr, fk)) != sorted(map(repr, self.map)) or len(set(fk)) != len(fk):
             return 'forward iteration visits %s but the members are %s' % (fk, sorted(self.map))
         if [n.name for n in b] != [n.name for n in reversed(f)]:
             return 'backward order %s is not the reverse of forward order %s: a later add() or discard() links through a removed / stale node' % (
@@ -463,4 +465,27 @@ def check(ctx, rule_id):
             got = [x.slots[0] for x in (h.forward() or [])]
             r.check(not raised and rv == wantk and got == want and bad is None, '%s returns and removes %s' % (label, wantk), fn, construct=Q + '.pop',
                     key='eff ' + label, msg='%s returns %s and leaves %s (%s); expected %s and %s' % (label, rv, got, bad, wantk, want))
+    # None is an element like any other (the sentinel's key slot holds None, too: emptiness must not be told by the key)
+    for keys in ([None], ['k0', None], [None, 'k0'], ['k0', None, 'k1']):
+        for last in (True, False):
+            h = Heap(0, keys=keys)
+            ex = Exec(repo, h)
+            fn = repo.func(TOOLS + 'pop')
+            label = 'pop(last=%s) from %s' % (last, keys)
+            try:
+                rv = ex.call('pop', [last])
+                raised = False
+            except _Raise:
+                rv, raised = None, True
+            except _Unknown as u:
+                raise AnalysisError('%s: OrderedSet.pop uses %s, which is outside the idioms the linked-list shape analysis knows' % (loc(fn), u))
+            wantk = keys[-1] if last else keys[0]
+            want = list(keys[:-1] if last else keys[1:])
+            got = [x.slots[0] for x in (h.forward() or [])]
+            r.check(not raised and rv == wantk and got == want and h.invariant() is None, '%s returns and removes %r' % (label, wantk), fn,
+                    construct=Q + '.pop', key='eff-none ' + label,
+                    msg='%s %s and leaves %s; expected %r and %s (None is a legal element)' % (
+                        label, 'raises' if raised else 'returns %r' % (rv,), got, wantk, want))
+        h = Heap(0, keys=keys)
+        readers(h, 'members %s' % (keys,), repo.func(TOOLS + '__iter__'))
     return r
